@@ -13,11 +13,20 @@ let rec i64_of_pos = function
   | XI p -> Int64.add (Int64.mul 2L (i64_of_pos p)) 1L
 let str_of_n = function N0 -> "0" | Npos p -> Printf.sprintf "%Lu" (i64_of_pos p)
 let int_of_n n = int_of_string (str_of_n n)
+let str_of_n0 = str_of_n
 
 (* ---------- printing ---------- *)
 let str_err = function
   | EClosed -> "closed" | ESendClosed -> "sendclosed" | ERecvClosed -> "recvclosed" | ETimeout -> "timeout"
 let str_list f l = "[" ^ String.concat "," (List.map f l) ^ "]"
+(* canonical form per payload class: untagged payloads (ZSTs) print every tag
+   as "_"; payloads without drop glue report no drops *)
+let tagged = ref true
+let droppy = ref true
+let set_class cls =
+  tagged := not (cls = "zst" || cls = "azst");
+  droppy := not (cls = "plain")
+let str_of_n x = if !tagged then str_of_n x else "_"
 let str_res = function
   | ROk -> "ok"
   | ROkB b -> if b then "ok:true" else "ok:false"
@@ -32,16 +41,17 @@ let str_res = function
   | RSome x -> "some:" ^ str_of_n x
   | RNone -> "none"
   | RPanic -> "panic"
-  | RNum n -> "n:" ^ str_of_n n
+  | RNum n -> "n:" ^ str_of_n0 n
   | RBool b -> if b then "b:true" else "b:false"
-  | RDrain (n, l) -> "drain:" ^ str_of_n n ^ ":" ^ str_list str_of_n l
+  | RDrain (n, l) -> "drain:" ^ str_of_n0 n ^ ":" ^ str_list str_of_n l
   | RBlocked -> "blocked"
   | RUnit -> "unit"
   | RInvalid -> "invalid"
   | RHang -> "hang"
 let str_out o =
-  Printf.sprintf "%s d=%s w=%s b=%s" (str_res o.r_res) (str_list str_of_n o.r_drops)
-    (str_list str_of_n o.r_wakes) (str_list str_of_n o.r_back)
+  Printf.sprintf "%s d=%s w=%s b=%s" (str_res o.r_res)
+    (str_list str_of_n (if !droppy then o.r_drops else []))
+    (str_list str_of_n0 o.r_wakes) (str_list str_of_n o.r_back)
 
 (* ---------- history-level labels (what the harness executes) ---------- *)
 type hl =
@@ -149,7 +159,7 @@ let init_of_cap (cap : string) : aconf =
 (* a step the single-threaded harness can execute *)
 (* every value still inside the channel or a waiting object: destroyed at tear-down *)
 let held (a : aconf) : string list =
-  let vs = a.ch.queue @ List.filter_map (fun (_, o) -> o.o_val) a.objs in
+  let vs = if !droppy then a.ch.queue @ List.filter_map (fun (_, o) -> o.o_val) a.objs else [] in
   List.sort compare (List.map str_of_n vs)
 let trailer a =
   let l = held a in
@@ -170,7 +180,7 @@ let run_stdin () =
        if line = "" then ()
        else if line.[0] = 'H' then begin
          (match String.split_on_char ' ' line with
-          | _ :: hid :: cap :: _ -> a := init_of_cap cap; Printf.printf "H %s\n" hid
+          | _ :: hid :: cap :: cls :: _ -> set_class cls; a := init_of_cap cap; Printf.printf "H %s\n" hid
           | _ -> failwith "bad header")
        end
        else if line = "E" then (print_string (trailer !a); print_string "\nE\n")
@@ -265,6 +275,7 @@ let gen seed count maxlen hist_file exp_file =
     let cls = classes.(Random.State.int rng (Array.length classes)) in
     let flav = if Random.State.bool rng then "S" else "A" in
     let ls, os, afin = gen_history rng maxlen cap in
+    set_class cls;
     Printf.fprintf hf "H %d %s %s %s\n" i cap cls flav;
     Printf.fprintf ef "H %d\n" i;
     List.iter (fun l -> output_string hf (str_hl l); output_char hf '\n') ls;
